@@ -50,6 +50,16 @@ def _convert(array, matrix, dtype, funcname):
         array = array.astype(dtype, copy=False)
     return array
 
+def _as_dtype(array, dtype):
+    if dtype is None:
+        return array
+    dtype = np.dtype(dtype)
+    if dtype.kind in 'ui':
+        # to the nearest representable integer (plain truncation would turn 254.9999 into 254)
+        info = np.iinfo(dtype)
+        array = np.clip(np.round(array), info.min, info.max)
+    return array.astype(dtype, copy=False)
+
 def rgb2xyz(rgb, dtype=None):
     '''
     xyz = rgb2xyz(rgb, dtype={float})
@@ -117,14 +127,15 @@ def xyz2rgb(xyz, dtype=None):
                 [-0.9689,  1.8758,  0.0415],
                 [ 0.0557, -0.2040,  1.0570],
                 ])
-    rgb_linear = _convert(xyz, transformation, dtype, 'xyz2rgb')
+    # the requested dtype applies to the result: the linear values (0..1) must stay floating point
+    rgb_linear = _convert(xyz, transformation, None, 'xyz2rgb')
     a = 0.055
     srgb_high = (1 + a)*np.power(rgb_linear, 1./2.4)
     srgb_high -= a
     srgb_low = 12.92 * rgb_linear
     srgb = np.choose(rgb_linear <= 0.0031308, [srgb_high, srgb_low])
     srgb *= 255.
-    return srgb
+    return _as_dtype(srgb, dtype)
 
 def xyz2lab(xyz, dtype=None):
     '''
